@@ -17,6 +17,14 @@ import (
 func sha1Chains(x *mon.Ctx) {
 	w := setup(x)
 	if !strings.Contains(os.Getenv("GODEBUG"), "x509sha1=1") {
+		// As a PRELUDE of another workload's mixed-order job (childmain, VERIF_PRELUDE) this workload runs in that
+		// job's configuration, not in its own: without the switch there is nothing it could do, and nothing is judged
+		// in a prelude anyway. (The main workload of a process is never in its own prelude list.)
+		for _, n := range strings.Split(os.Getenv("VERIF_PRELUDE"), ",") {
+			if n == "c16.sha1" {
+				return
+			}
+		}
 		x.HarnessError("workload c16.sha1 must run in configuration sha1ok (GODEBUG=x509sha1=1); GODEBUG=%q", os.Getenv("GODEBUG"))
 	}
 	x.Note("GODEBUG=%s", os.Getenv("GODEBUG"))
